@@ -231,3 +231,31 @@ Fixpoint covered (e : expr) : bool :=
   | EJoin s es => covered s && forallb covered es
   | ESplitNth a sep _ _ => covered a && match sep with SepNone | SepDelim => true | _ => false end
   end.
+
+(* a text that is one String wrapped in any nesting of Text / Tag / HRef / Protected, each with that
+   single part: all its characters lie in one part, so no needle can span a part boundary *)
+Inductive chain : rt -> str -> Prop :=
+| ch_str s : chain (RStr s) s
+| ch_text q s : chain q s -> chain (RText [q]) s
+| ch_tag n q s : chain q s -> chain (RTag n [q]) s
+| ch_href u e q s : chain q s -> chain (RHRef u e [q]) s
+| ch_prot q s : chain q s -> chain (RProt [q]) s.
+
+(* the splittable one-String texts: a String, or a Text / Tag / HRef around a (Tag / HRef)* nest
+   around one String -- what the constructors build from Tag(HRef(...'a b c'...)) *)
+Inductive chain_in : rt -> str -> Prop :=
+| ci_str s : chain_in (RStr s) s
+| ci_tag n q s : chain_in q s -> chain_in (RTag n [q]) s
+| ci_href u e q s : chain_in q s -> chain_in (RHRef u e [q]) s.
+Inductive chain_s : rt -> str -> Prop :=
+| cs_in t s : chain_in t s -> chain_s t s
+| cs_text q s : chain_in q s -> chain_s (RText [q]) s.
+
+(* the same nest around another string (an empty inner text disappears, as in the constructor) *)
+Fixpoint rechain (t : rt) (w : str) : rt :=
+  match t with
+  | RStr _ => RStr w
+  | RSym n => RSym n
+  | RText ps | RTag _ ps | RHRef _ _ ps | RProt ps =>
+    build (kind_of t) (filter nonempty (map (fun q => rechain q w) ps))
+  end.
